@@ -20,6 +20,12 @@ class FillModel:
         self.getters: Set[str] = set()
         self.bufs: Set[str] = {a.arg for a in self.fn.args.args[1:]}
         self.udl_names: Set[str] = set()
+        self.loc_getters: Set[str] = set()
+        for st in walk_local(self.fn):
+            if isinstance(st, ast.Assign) and len(st.targets) == 1 and isinstance(st.targets[0], ast.Name):
+                ch = attr_chain(st.value)
+                if ch is not None and ch[-1] == "current_location" and not isinstance(st.value, ast.Call):
+                    self.loc_getters.add(st.targets[0].id)
         for st in walk_local(self.fn):
             if isinstance(st, ast.Assign) and len(st.targets) == 1 and isinstance(st.targets[0], ast.Name):
                 ch = attr_chain(st.value)
@@ -60,15 +66,34 @@ class FillModel:
         return ch == ("self", "tokbuf") or (len(ch) == 1 and ch[0] in self.bufs)
 
     # ------------------------------------------------------------------
-    def _is_stamp(self, n: Node, var: str) -> bool:
+    def _is_loc_call(self, v: ast.AST) -> bool:
+        if not isinstance(v, ast.Call):
+            return False
+        ch = attr_chain(v.func)
+        if ch is None:
+            return False
+        if ch[-1] == "current_location":
+            return True
+        return len(ch) == 1 and ch[0] in self.loc_getters
+
+    def _is_stamp(self, n: Node, var: str, fresh=frozenset()) -> bool:
         st = n.stmt
         if n.kind == "stmt" and isinstance(st, ast.Assign):
             for t in st.targets:
                 if attr_chain(t) == (var, "location"):
                     v = st.value
-                    if isinstance(v, ast.Call) and (attr_chain(v.func) or ("",))[-1] == "current_location":
+                    if self._is_loc_call(v):
+                        return True
+                    # a local that received current_location() after this token was fetched
+                    if isinstance(v, ast.Name) and v.id in fresh:
                         return True
         return False
+
+    def _fresh_loc_def(self, n: Node) -> Optional[str]:
+        st = n.stmt
+        if n.kind == "stmt" and isinstance(st, ast.Assign) and len(st.targets) == 1 and isinstance(st.targets[0], ast.Name) and self._is_loc_call(st.value):
+            return st.targets[0].id
+        return None
 
     def _none_test(self, n: Node, var: str) -> Optional[str]:
         """Label of the edge on which var is None, if n tests that."""
@@ -100,11 +125,11 @@ class FillModel:
         out: List[Tuple[str, ast.AST, str]] = []
         self.paths_checked = 0
         for a, v in self.acq:
-            seen: Set[Tuple[int, str, bool]] = set()
-            stack: List[Tuple[Node, str, bool]] = [(s, v, False) for s, lab in a.succ if lab != "exc"]
+            seen: Set[Tuple[int, str, bool, frozenset]] = set()
+            stack = [(s, v, False, frozenset()) for s, lab in a.succ if lab != "exc"]
             while stack:
-                n, var, stamped = stack.pop()
-                k = (n.id, var, stamped)
+                n, var, stamped, fresh = stack.pop()
+                k = (n.id, var, stamped, fresh)
                 if k in seen:
                     continue
                 seen.add(k)
@@ -119,7 +144,7 @@ class FillModel:
                     for s, lab in n.succ:
                         if lab == "exc" or lab == nl:
                             continue
-                        stack.append((s, var, stamped))
+                        stack.append((s, var, stamped, fresh))
                     continue
                 if any(nn is n and vv == var for nn, vv in self.appends):
                     if not stamped:
@@ -127,8 +152,11 @@ class FillModel:
                     continue
                 if self._fuses(n, var):
                     continue
-                if self._is_stamp(n, var):
+                if self._is_stamp(n, var, fresh):
                     stamped = True
+                fl = self._fresh_loc_def(n)
+                if fl is not None:
+                    fresh = fresh | {fl}
                 if n.kind == "stmt" and isinstance(st, ast.Assign) and len(st.targets) == 1 and isinstance(st.targets[0], ast.Name):
                     tgt = st.targets[0].id
                     if isinstance(st.value, ast.Name) and st.value.id == var and tgt != var:
@@ -139,7 +167,7 @@ class FillModel:
                         continue
                 for s, lab in n.succ:
                     if lab != "exc":
-                        stack.append((s, var, stamped))
+                        stack.append((s, var, stamped, fresh))
         # de-duplicate
         uniq = []
         seenk = set()
